@@ -536,6 +536,8 @@ func crossGenFiles() map[string]string {
 		"zz-vgen-hist+plus":      mk("zz-vgen-hist+plus", "  /etc/plus r,\n  /usr/bin/plusexec rPx,\n"),
 		"gg-vgen-hist-execplus":  mk("gg-vgen-hist-execplus", "  /etc/host10 r,\n\n  #aa:exec zz-vgen-hist+plus\n"),
 		"hh-vgen-hist-stackplus": mk("hh-vgen-hist-stackplus", "  /etc/host11 r,\n\n  #aa:stack zz-vgen-hist+plus\n"),
+		// a profile indented with tabs (its directive line too): what it is indented with is its own business
+		"aa-vgen-hist-tabbed": "abi <abi/4.0>,\n\ninclude <tunables/global>\n\n@{exec_path} = @{bin}/aa-vgen-hist-tabbed\nprofile aa-vgen-hist-tabbed @{exec_path} {\n\tinclude <abstractions/base>\n\n\t@{exec_path} mr,\n\n\t#aa:exec zz-vgen-hist-uselib\n\t#aa:dbus talk bus=session name=org.vgen.Tab label=tabpeer\n\n\tinclude if exists <local/aa-vgen-hist-tabbed>\n}\n",
 		// exec directives: default, explicit and two-target forms over the same targets
 		"aa-vgen-hist-exec1": mk("aa-vgen-hist-exec1", "  #aa:exec zz-vgen-hist-uselib\n"),
 		"bb-vgen-hist-exec2": mk("bb-vgen-hist-exec2", "  #aa:exec U zz-vgen-hist-uselib\n\n  /etc/between r,\n"),
